@@ -763,6 +763,17 @@ func zzC18CheckDocs(rng *rand.Rand, zone string, wk zzC18Week, verdicts []string
 		if ep := []error{errJP, errYP}[i]; (ep == nil) != (e == nil) {
 			return "verdict-depends-on-receiver-" + form, fmt.Sprint(doc, " :: fresh: ", e, ", populated: ", ep), acc
 		}
+
+		if e != nil {
+			// All or nothing: a rejected document leaves the receiver exactly
+			// as it was, it does not take effect in part.
+			before := zzC18Receiver(true, zone)
+			bz, bwk := zzC18Project(before)
+			az, awk := zzC18Project([]*Weekly{wjp, wyp}[i])
+			if az != bz || awk != bwk {
+				return "rejected-but-changed-receiver-" + form, fmt.Sprint(doc, " :: ", e, " :: receiver now ", az, awk), acc
+			}
+		}
 	}
 
 	same := func(w *Weekly) bool {
